@@ -866,6 +866,9 @@ def _consumptions(stmts_or_expr, name: str, resolve_fn, depth: int = 3) -> int:
     def block(stmts) -> int:
         n = 0
         for st in stmts:
+            # `rqs = list(rqs)`: one traversal, after which the name is a list and may be walked any number of times
+            if isinstance(st, ast.Assign) and len(st.targets) == 1 and isinstance(st.targets[0], ast.Name) and st.targets[0].id == name and isinstance(st.value, ast.Call) and text(st.value.func) in ("list", "tuple", "sorted") and st.value.args and isinstance(st.value.args[0], ast.Name) and st.value.args[0].id == name:
+                return n + 1
             if isinstance(st, ast.If):
                 n += expr(st.test) + max(block(st.body), block(st.orelse))
             elif isinstance(st, (ast.For, ast.AsyncFor)):
